@@ -310,7 +310,20 @@ def run_case(case, ctx):
             + (["cropper-reused"] if box2 is not None else []) + ["before:" + b for b in case.get("before", [])]}
 
 
+# a source whose data section exceeds 16 MiB (132 x 128 x 640 at 16 bits: 5280 disk blocks), cropped in inlines only, so that
+# the copied blocks form one contiguous run of more than 16 MiB
+BIG_FILE = {"kind": "spec", "family": "4x4", "rate": 16, "blockshape": [4, 4, 128], "shape": [132, 128, 640], "version": "0.2.8",
+            "values": {"kind": "gauss", "vseed": 41}, "il": [1, 1], "xl": [1, 1], "z0": 0, "dz_us": 4000, "arrays": [189, 193], "dups": []}
+
+
 def shard_main(ctx):
+    if ctx.shard == 9:
+        case = {"file": BIG_FILE, "by": "index", "kind": "valid", "box": [[4, 128], None, None], "classes": ["aligned", "none", "none"], "boxform": "tuple"}
+        try:
+            ctx.evaluate(case, run_case)
+        except Violation as v:
+            ctx.failures.append({"kind": v.kind, "detail": v.detail, "case": case})
+            return
     if not ctx.explore("crop4x4", cases(ctx, ("4x4",)), run_case, ctx.n(150, 1500)):
         return
     if not ctx.explore("cropother", cases(ctx, ("zs", "gen")), run_case, ctx.n(80, 800)):
